@@ -5265,6 +5265,9 @@ func (a *Agent) TaskDispatch(RequestID uint32, CommandID uint32, Parser *parser.
 					// if we successfully connected to the SMB named pipe
 					if Success == 1 {
 
+						// the answer to the "pivot connect" task: nothing else comes under its id
+						a.RequestCompleted(RequestID)
+
 						if Parser.CanIRead([]parser.ReadType{parser.ReadBytes}) {
 
 							var (
@@ -5380,6 +5383,9 @@ func (a *Agent) TaskDispatch(RequestID uint32, CommandID uint32, Parser *parser.
 
 							Message["Type"] = "Error"
 							Message["Message"] = fmt.Sprintf("[SMB] Failed to connect: %v [%v]", ErrorString, ErrorCode)
+
+							// the answer to the "pivot connect" task: nothing else comes under its id
+							a.RequestCompleted(RequestID)
 						} else {
 							logger.Debug(fmt.Sprintf("Agent: %x, Command: COMMAND_PIVOT - DEMON_PIVOT_SMB_CONNECT, Invalid packet", AgentID))
 						}
